@@ -60,7 +60,7 @@ func stv(fs ...any) map[string]any {
 	return map[string]any{"k": "st", "fs": fs}
 }
 func ptrv(v any) map[string]any { return map[string]any{"k": "p", "a": "i", "e": v} }
-func nilv() map[string]any       { return map[string]any{"k": "nil"} }
+func nilv() map[string]any      { return map[string]any{"k": "nil"} }
 
 func has(l []string, x string) bool {
 	for _, y := range l {
